@@ -482,15 +482,18 @@ impl TableBootstrapInner {
     )
         requires bucket_number < 160, gen_ok(old(gc).v, old(h).s, old(tr).ev, old(gc).v.action_id),
         ensures gen_ok(final(gc).v, final(h).s, final(tr).ev, old(gc).v.action_id), extends(old(tr).ev, final(tr).ev),
+            marks_ok(old(tr).ev, final(tr).ev, true), // @C10.every_query_sent_is_recorded_on_the_queried_record
     {
         let ghost aid = gc.v.action_id;
         let ghost ev0 = tr.ev;
+        proof { lemma_marks_refl(ev0, true); }
         let target_id = self.this_node_id.flip_bit(bucket_number);
         let nodes = self.nodes_to_bootstrap_bucket(bucket_number, target_id);
 
         let mut vx_i: usize = 0;
         while vx_i < nodes.len()
             invariant gen_ok(gc.v, h.s, tr.ev, aid), extends(ev0, tr.ev),
+                marks_ok(ev0, tr.ev, true), // @C10.every_query_sent_is_recorded_on_the_queried_record
             decreases nodes.len() - vx_i,
         {
             let node = nodes[vx_i];
@@ -517,13 +520,13 @@ impl TableBootstrapInner {
                 .send_request(&find_node_msg, node.addr, NODE_TIMEOUT, Tracked(tr), Tracked(h))
             {
                 Ok(receiver) => {
-                    proof { lemma_ids_round(evb, tr.ev, aid, h.s, find_node_msg.transaction_id@, trans_id); }
+                    proof { lemma_ids_round(evb, tr.ev, aid, h.s, find_node_msg.transaction_id@, trans_id); lemma_marks_other(ev0, evb, Ev::Send(find_node_msg, node.addr), true); }
                     if new_receivers_tx.send(receiver).is_err() {
                         break;
                     }
                 }
                 Err(error) => {
-                    proof { lemma_ids_round(evb, tr.ev, aid, h.s, find_node_msg.transaction_id@, trans_id); }
+                    proof { lemma_ids_round(evb, tr.ev, aid, h.s, find_node_msg.transaction_id@, trans_id); lemma_marks_other(ev0, evb, Ev::Send(find_node_msg, node.addr), true); }
                     continue;
                 }
             }
@@ -532,9 +535,10 @@ impl TableBootstrapInner {
             let ghost evc = tr.ev;
             if let Some(node) = self.table.lock().unwrap().find_node_mut(&node, Tracked(tr)) {
                 proof { lemma_ids_other(evc, tr.ev[evc.len() as int], aid, h.s); }
-                node.local_request();
+                node.local_request(Tracked(tr));
+                proof { lemma_marks_hit(ev0, evc, node.handle, true); }
             } else {
-                proof { lemma_ids_other(evc, tr.ev[evc.len() as int], aid, h.s); }
+                proof { lemma_ids_other(evc, tr.ev[evc.len() as int], aid, h.s); lemma_marks_miss(ev0, evc, node, true); }
             }
         }
     }
